@@ -9,7 +9,9 @@
      uuid     class: "orig" | "A" | "B" | "null" | "random" | "time" | "other"
      seed     relation of s_checksum_seed to the UUID: "zero" | "uuid" (= crc32c(~0, uuid)) | "other"
      blocks, rblocks, errors, maxmnt, mntcount, interval, isz, bs, resuid, resgid, stride, stripe, hashalg   integers
-     mntopts  set of default-mount-option BITS   quota  set of quota types with a quota inode
+     mntopts  set of the one-bit default mount options   jmode  the 2-bit journalling-mode FIELD of s_default_mount_opts (0..3)
+     quota  set of quota types with a quota inode   qinum  [usr, grp, prj |-> inode number of the quota file, 0 = none]
+     firstino  s_first_ino   lowfree  the lowest free inode >= s_first_ino (observed; 0 = none): where libext2fs allocates next
      journal, orphino, mmp, testfs, valid, errfs, packed  0/1     mmpint, csumtype, lastcheck, mtime  integers
 
    Literal behaviours of the pinned tree that break property C11 are kept behind Dev* constants (TRUE = what the
@@ -199,9 +201,19 @@ AddJournal(c) ==                                                                
 
 AddOrphan(c) == IF c.oadd THEN [c EXCEPT !.e = @ \cup {"orphan_file"}, !.st.orphino = 1] ELSE c
 
+(* Which inode a quota file occupies.  User and group quota files live in the reserved inodes 3 and 4.  The project quota
+   file lives in an ORDINARY inode: quota_file_create() takes it from ext2fs_new_inode(), i.e. any free inode >= s_first_ino,
+   s_first_ino itself (11) included -- the lowest one.  It is released again (inode bitmap, free counts) when the file is
+   removed, whatever its number.                                                                                        *)
+ReservedQuotaIno(t) == CASE t = "usr" -> 3 [] t = "grp" -> 4
+QuotaIno(t, st) == IF t = "prj" THEN st.lowfree ELSE ReservedQuotaIno(t)             \* what libext2fs does; the property allows QuotaInoAllowed
+QuotaInoAllowed(t, ino, st) == IF t = "prj" THEN ino >= st.firstino ELSE ino = ReservedQuotaIno(t)
+QuotaInumsOK(st) == /\ st.quota = {t \in QTypes : st.qinum[t] # 0}
+                    /\ \A t \in st.quota : QuotaInoAllowed(t, st.qinum[t], st)
 HandleQuota(c) ==                                                               \* handle_quota_options()
    IF ~c.qflag \/ (\A t \in QTypes : c.q[t] = 0) THEN c
    ELSE IF c.q["prj"] = 1 /\ c.st.isz = 128 THEN Refuse(c, "inode size too small for project quota")
+   ELSE IF c.q["prj"] = 1 /\ "prj" \notin c.st.quota /\ c.st.lowfree = 0 THEN Refuse(c, "no free inode for the project quota file")
    ELSE LET en == {t \in QTypes : c.q[t] = 1}
             dis == {t \in QTypes : c.q[t] = -1}
             created == en \ c.st.quota
@@ -210,7 +222,9 @@ HandleQuota(c) ==                                                               
             e2 == IF "prj" \in created THEN e1 \cup {"project"} ELSE e1
             e3 == IF "prj" \in dis THEN e2 \ {"project"} ELSE e2
             e4 == IF en = {} /\ q1 = {} THEN e3 \ {"quota"} ELSE e3
-        IN [c EXCEPT !.e = e4, !.st.quota = q1, !.mayfail = (@ \/ created # {}), !.touched = @ \cup {"quota"}]
+            qi == [t \in QTypes |-> IF t \in dis THEN 0 ELSE IF t \in created THEN QuotaIno(t, c.st) ELSE c.st.qinum[t]]
+        IN [c EXCEPT !.e = e4, !.st.quota = q1, !.st.qinum = [usr |-> qi["usr"], grp |-> qi["grp"], prj |-> qi["prj"]],
+                     !.mayfail = (@ \/ created # {}), !.touched = @ \cup {"quota"}]
 
 UuidToken(a) == IF a = "clear" \/ a = "null" THEN "null" ELSE IF a = "random" THEN "random" ELSE IF a = "time" THEN "time"
                 ELSE IF a = "0a0a0a0a-1b1b-4c2c-8d3d-4e4e4e4e4e4e" THEN "A" ELSE IF a = "b0b0b0b0-c1c1-4d2d-9e3e-f4f4f4f4f4f4" THEN "B" ELSE "other"
@@ -237,10 +251,17 @@ ResizeInode(c, n) ==
 Rewrite(c) ==                                                                   \* rewrite_metadata_checksums()
    IF c.rw = {} THEN c ELSE [c EXCEPT !.st.csumtype = IF "metadata_csum" \in c.e THEN 1 ELSE 0, !.touched = @ \cup {"csum"}]
 
-MntBits(name) == CASE name = "journal_data" -> {"jd"} [] name = "journal_data_ordered" -> {"jo"} [] name = "journal_data_writeback" -> {"jd", "jo"}
-                   [] OTHER -> {name}
-MntKnown == {"debug", "bsdgroups", "user_xattr", "acl", "uid16", "journal_data", "journal_data_ordered", "journal_data_writeback",
-             "nobarrier", "block_validity", "discard", "nodelalloc"}
+(* -o: e2p_edit_mntopts().  The words are applied from left to right.  A one-bit option sets / (with ^) clears its bit.
+   The journalling mode is ONE 2-bit field: naming a mode stores that mode in the field (whatever was there), ^mode
+   empties the field (whatever was there).                                                                              *)
+JModeNames == {"journal_data", "journal_data_ordered", "journal_data_writeback"}
+JModeVal(name) == CASE name = "journal_data" -> 1 [] name = "journal_data_ordered" -> 2 [] name = "journal_data_writeback" -> 3
+MntKnown == {"debug", "bsdgroups", "user_xattr", "acl", "uid16", "nobarrier", "block_validity", "discard", "nodelalloc"} \cup JModeNames
+MntWord(m, x, neg) == IF x \in JModeNames THEN [m EXCEPT !.jmode = IF neg THEN 0 ELSE JModeVal(x)]
+                      ELSE [m EXCEPT !.opts = IF neg THEN @ \ {x} ELSE @ \cup {x}]
+RECURSIVE MntFold(_, _, _, _)
+MntFold(m, q, neg, i) == IF i > Len(q) THEN m ELSE MntFold(MntWord(m, q[i], neg), q, neg, i + 1)
+MntEdit(st, on, off) == MntFold(MntFold([opts |-> st.mntopts, jmode |-> st.jmode], on, FALSE, 1), off, TRUE, 1)   \* argv = on words, then ^off words
 HashAlg(a) == CASE a = "hash_alg=legacy" -> 0 [] a = "hash_alg=half_md4" -> 1 [] a = "hash_alg=tea" -> 2 [] OTHER -> -1
 ErrCode(a) == CASE a = "continue" -> 1 [] a = "remount-ro" -> 2 [] a = "panic" -> 3 [] OTHER -> -1
 Label16(a) == IF a = "a_label_longer_than_16" THEN "a_label_longer_t" ELSE a      \* strncpy(.., 16)
@@ -263,7 +284,7 @@ Run(op, st) ==
            [] k = "L" -> [c EXCEPT !.st.label = Label16(op.a), !.touched = {"L"}]
            [] k = "M" -> [c EXCEPT !.st.lastmnt = op.a, !.touched = {"M"}]
            [] k = "o" -> IF (on \cup off) \ MntKnown # {} THEN Refuse(c, "invalid mount option set")
-                         ELSE [c EXCEPT !.st.mntopts = (@ \cup UNION {MntBits(x) : x \in on}) \ UNION {MntBits(x) : x \in off}, !.touched = {"o"}]
+                         ELSE LET m == MntEdit(st, op.on, op.off) IN [c EXCEPT !.st.mntopts = m.opts, !.st.jmode = m.jmode, !.touched = {"o"}]
            [] k = "O" -> UpdateFeatureSet(c, on, off)
            [] k = "E" -> CASE op.a = "stride" -> [c EXCEPT !.st.stride = op.n, !.touched = {"stride"}]
                            [] op.a = "stripe_width" -> [c EXCEPT !.st.stripe = op.n, !.touched = {"stripe"}]
@@ -272,6 +293,7 @@ Run(op, st) ==
                            [] op.a = "^test_fs" -> [c EXCEPT !.st.testfs = 0, !.touched = {"flags"}]
                            [] op.a = "force_fsck" -> [c EXCEPT !.st.errfs = 1, !.touched = {"state"}]
                            [] op.a = "mount_opts=journal_checksum" -> [c EXCEPT !.st.extopts = "journal_checksum", !.touched = {"extopts"}]
+                           [] op.a = "clear_mmp" -> [c EXCEPT !.mayfail = (st.mmp = 0), !.touched = {"mmpblk"}]   \* run with -f; rewrites the MMP block, no superblock field
                            [] op.a = "mount_opts=" -> [c EXCEPT !.st.extopts = "", !.touched = {"extopts"}]
                            [] OTHER -> Refuse(c, "bad extended option")
            [] k = "J" -> [c EXCEPT !.jadd = TRUE]
@@ -361,6 +383,7 @@ FeatureSetOK(st) ==
    /\ ("has_journal" \in st.feats <=> (st.journal = 1 \/ st.jdev = 1))           \* e2fsck/journal.c
    /\ ("needs_recovery" \in st.feats => "has_journal" \in st.feats)
    /\ ("quota" \in st.feats <=> st.quota # {})                                   \* quota feature <=> some quota inode
+   /\ QuotaInumsOK(st)                                                           \* each quota file in an inode it may occupy
    /\ ("project" \in st.feats => st.isz > 128)
    /\ ("prj" \in st.quota => "project" \in st.feats)
    /\ ("mmp" \in st.feats <=> st.mmp = 1)
@@ -452,10 +475,17 @@ CatBlockSizes == {1024, 2048, 4096}
 CatalogueRows == {[bs |-> b, csum |-> c, deep |-> DeepExtents(b), fragdir |-> DirExtents, fullroot |-> FullRootEntries(b, c),
                    leafcap |-> DxLeafCap(b, c, DxNameLen), leafcap255 |-> DxLeafCap(b, c, 255), namelen |-> DxNameLen] : b \in CatBlockSizes, c \in {0, 1}}
 CatalogueOwners == [usr |-> OwnerIdSeq("usr"), grp |-> OwnerIdSeq("grp"), prj |-> OwnerIdSeq("prj")]
+(* FirstInoFree: whether the first ordinary inode (s_first_ino, 11) is free.  mke2fs puts lost+found there; a filesystem
+   whose lost+found was re-created has it elsewhere.  Each starting profile exists in both variants: "" (in use) and
+   "i11" (free): the next ordinary inode tune2fs allocates is then s_first_ino itself.                                  *)
+CatVariants == {"", "i11"}
+VariantOK(st, v) == IF v = "i11" THEN st.lowfree = st.firstino ELSE st.lowfree > st.firstino
 (* c = census of an image by the independent reader *)
 UniverseOK(st, c) ==
    LET crc == IF "metadata_csum" \in st.feats THEN 1 ELSE 0
    IN /\ c.stale = <<>>                                                          \* starts with every checksum right
+      /\ c.variant \in CatVariants /\ VariantOK(st, c.variant)
+      /\ c.first_ino_free = (IF c.variant = "i11" THEN 1 ELSE 0)                  \* the reader's inode bitmap agrees
       /\ c.nusr > QuotaPerBlock /\ c.ngrp > QuotaPerBlock                        \* quota trees span several data blocks
       /\ (st.isz > 128 => c.nprj > QuotaPerBlock)
       /\ ("extent" \in st.feats => c.file_depth >= 2 /\ c.dir_depth >= 1)        \* interior extent blocks; directory extent blocks
@@ -486,9 +516,10 @@ QuotaOps == {S("Q", <<"usrquota">>, <<>>), S("Q", <<>>, <<"usrquota">>), S("Q", 
              S("Q", <<"prjquota">>, <<>>), S("Q", <<>>, <<"prjquota">>), S("Q", <<"usrquota", "grpquota">>, <<>>),
              S("Q", <<"prjquota">>, <<"usrquota">>), S("Q", <<>>, <<"usrquota", "grpquota", "prjquota">>)}
 JournalOps == {K("J", "", 1), K("J", "", 4), K("j", "", 0)}
-MntOptOps == {S("o", <<x>>, <<>>) : x \in {"acl", "user_xattr", "journal_data", "journal_data_writeback", "debug", "nodelalloc"}}
-             \cup {S("o", <<>>, <<x>>) : x \in {"acl", "user_xattr", "journal_data", "journal_data_writeback", "nodelalloc"}}
-             \cup {S("o", <<"acl", "user_xattr">>, <<"debug">>)}
+(* -o: every option and every ^option by itself, two words in one request, two journalling modes in one request (last wins) *)
+MntOptOps == {S("o", <<x>>, <<>>) : x \in MntKnown} \cup {S("o", <<>>, <<x>>) : x \in MntKnown}
+             \cup {S("o", <<"acl", "user_xattr">>, <<"debug">>), S("o", <<"journal_data", "journal_data_ordered">>, <<>>),
+                   S("o", <<"journal_data_writeback", "nodelalloc">>, <<"journal_data_writeback", "acl">>)}
 TunableOps ==
    {K("L", "newlabel", 0), K("L", "", 0), K("L", "a_label_longer_than_16", 0), K("L", "second", 0)}
    \cup {K("m", "", 0), K("m", "", 1), K("m", "", 5), K("m", "", 50), K("r", "", 0), K("r", "", 100), K("r", "", 5000)}
@@ -496,11 +527,50 @@ TunableOps ==
    \cup {K("c", "", 0), K("c", "", 30), K("c", "", -1), K("C", "", 5), K("C", "", 0)}
    \cup {K("i", "0", 0), K("i", "1d", 86400), K("i", "2w", 1209600), K("i", "3m", 7776000), K("i", "100s", 100)}
    \cup {K("E", "stride", 8), K("E", "stripe_width", 16), K("E", "hash_alg=tea", 0), K("E", "hash_alg=legacy", 0), K("E", "hash_alg=half_md4", 0),
-         K("E", "test_fs", 0), K("E", "^test_fs", 0), K("E", "force_fsck", 0), K("E", "mount_opts=journal_checksum", 0)}
+         K("E", "test_fs", 0), K("E", "^test_fs", 0), K("E", "force_fsck", 0), K("E", "mount_opts=journal_checksum", 0),
+         K("E", "mount_opts=", 0), K("E", "clear_mmp", 0), K("E", "stride", 0), K("E", "stripe_width", 0)}
    \cup {K("g", "", 100), K("u", "", 1000), K("M", "/mnt/x", 0), K("T", "20200101000000", 1577836800)}
    \cup MntOptOps
 StructuralOps == FeatureOps \cup UuidOps \cup InodeSizeOps \cup QuotaOps \cup JournalOps
 AllOps == StructuralOps \cup TunableOps
+
+(* ---- multi-valued superblock fields: every TRANSITION between values -------------------------------------------------- *)
+(* A field that holds one of several values (the journalling mode, the error behaviour, the default hash) is owned by a    *)
+(* family of requests; a request sequence must be able to take the field from every value to every value.  FieldFamilies   *)
+(* names, per field, the requests that own it; FieldPairs = every ordered pair inside a family (a ; b): together with the   *)
+(* single requests (taken from the value of the starting image) every transition v -> w is taken -- MC_Tune decides that   *)
+(* (ASSUME FieldTransitionsTaken) from the starting states of the universe.                                                 *)
+JModeOps == {S("o", <<x>>, <<>>) : x \in JModeNames} \cup {S("o", <<>>, <<x>>) : x \in JModeNames}
+ErrorsOps == {K("e", "continue", 0), K("e", "remount-ro", 0), K("e", "panic", 0)}
+HashOps == {K("E", "hash_alg=tea", 0), K("E", "hash_alg=legacy", 0), K("E", "hash_alg=half_md4", 0)}
+FieldFamilies == [jmode |-> JModeOps, errors |-> ErrorsOps, hashalg |-> HashOps]
+FieldValues == [jmode |-> 0..3, errors |-> 1..3, hashalg |-> 0..2]
+FieldOf(f, st) == CASE f = "jmode" -> st.jmode [] f = "errors" -> st.errors [] f = "hashalg" -> st.hashalg
+FieldPairs == UNION {{<<a, b>> : a \in FieldFamilies[f], b \in FieldFamilies[f]} : f \in DOMAIN FieldFamilies}
+(* the transitions of field f taken from starting state s0 by the single requests and the pairs of its family *)
+FieldTransitions(f, s0) ==
+   LET fam == FieldFamilies[f]
+       ok(a, s) == ~Refused(a, s)
+   IN {<<FieldOf(f, s0), FieldOf(f, Effect(a, s0))>> : a \in {x \in fam : ok(x, s0)}}
+      \cup UNION {LET s1 == Effect(a, s0) IN {<<FieldOf(f, s1), FieldOf(f, Effect(b, s1))>> : b \in {x \in fam : ok(x, s1)}} : a \in {x \in fam : ok(x, s0)}}
+FieldTransitionsTaken(s0) ==
+   \A f \in DOMAIN FieldFamilies :
+      LET reach == {FieldOf(f, s0)} \cup {FieldOf(f, Effect(a, s0)) : a \in {x \in FieldFamilies[f] : ~Refused(x, s0)}}
+      IN /\ FieldValues[f] \subseteq reach                                        \* every value is reached ...
+         /\ (reach \X FieldValues[f]) \subseteq FieldTransitions(f, s0)            \* ... and taken to every value
+
+(* ---- objects tune2fs allocates in ORDINARY inodes: the project quota file, the orphan file ----------------------------- *)
+(* created by a ; removed again by b.  Run on the starting images in which the first ordinary inode (s_first_ino) is FREE    *)
+(* (catalogue element FirstInoFree below), so that the new object occupies exactly s_first_ino, and on those where it is not. *)
+PrjCreateOps == {F(<<"project">>, <<>>), F(<<"quota", "project">>, <<>>), S("Q", <<"prjquota">>, <<>>), S("Q", <<"prjquota">>, <<"usrquota">>)}
+PrjRemoveOps == {F(<<>>, <<"project">>), F(<<>>, <<"quota">>), S("Q", <<>>, <<"prjquota">>), S("Q", <<>>, <<"usrquota", "grpquota", "prjquota">>)}
+OrphanCreateOps == {F(<<"orphan_file">>, <<>>), F(<<"has_journal", "orphan_file">>, <<>>)}
+OrphanRemoveOps == {F(<<>>, <<"orphan_file">>), F(<<>>, <<"has_journal", "orphan_file">>)}
+AllocSeqs == {<<a, b>> : a \in PrjCreateOps, b \in PrjRemoveOps} \cup {<<a, b>> : a \in OrphanCreateOps, b \in OrphanRemoveOps}
+             \cup {<<b, a, b>> : a \in PrjCreateOps, b \in PrjRemoveOps}        \* a filesystem that starts with project quota:
+             \cup {<<b, a, b>> : a \in OrphanCreateOps, b \in OrphanRemoveOps}  \* ... or with an orphan file: remove, create, remove
+(* other pairs that only make sense together *)
+ExtraPairs == {<<F(<<"mmp">>, <<>>), K("E", "clear_mmp", 0)>>}
 
 (* ordered pairs are formed over this representative subset *)
 PairOps ==
